@@ -3,193 +3,165 @@
 
    Model: Framing/FrmValidate.v - the guards at the top of every package-level Encode and of
    every registry Codec.Encode / Parameters.Validate as boolean functions of the argument
-   tuple (Go int64 products written out), and `representable` as the property text defines it
-   (positive dimensions, <= 65535 for the formats with 16-bit size fields, supported component
-   count / bit depth, parameter in range, pixel buffer long enough).
+   tuple (Go int64 products written out), as the code is AFTER the fix commits e80df58,
+   96ebe7f, 9b2aa4a, 60ddb6e, 47e9276, 6841553; `representable` as the property text defines
+   it (positive dimensions, <= 65535 for the formats with 16-bit size fields, supported
+   component count / bit depth, parameter in range, pixel buffer long enough).
 
-   STATE FOR THE UNFIXED /repo: the statement `accepts a = true -> representable a` is
-   REFUTED for every package-level encoder (one witness per missing guard, each replayed on
-   the Go code by the harness); the `_partial` theorems prove it under exactly the missing
-   guards, i.e. they name the repair. At the registry level (FrameInfo fields are uint16) the
-   statement HOLDS unconditionally for baseline, extended, lossless .57, SV1, the JPEG 2000
-   codecs and HTJ2K; it is refuted for JPEG-LS (.80/.81: frame length; default NEAR = 3 with
-   BitsStored = 2) and RLE (zero rows accepted, more than 15 segments panic).
+   STATE: `accepts a = true -> representable a` is proved without further hypotheses for
+   baseline, extended (8 and 12 bit), lossless, SV1, JPEG-LS lossless, RLE (for every uint16
+   FrameInfo; plus "never panics"), and for the registry codecs .50 .51 .57 .70 .80 .90-.93
+   .201-.203 and RLE. For jpeg2000.Encoder it is proved for image and tile dimensions that
+   fit the 32-bit SIZ fields and fewer than 2^59 pixels (int64 byte counts cannot wrap there).
+   KNOWN FINDINGS, left open by decision, each with its `_refuted` witness and the `_partial`
+   theorem naming the missing guard:
+     FR-3  JPEG-LS near-lossless accepts NEAR > min(255, MAXVAL/2)
+           (C17_jpegls_near_refuted / _partial, C17_codec_jpegls_near_refuted / _partial);
+     FR-7  Parameters.Validate() normalises out-of-range values instead of returning an error
+           (C17_validate_normalises, C17_validate_normalises_witness).
+   Outside the property's quantifier (dimension values up to 2^16+1) but true of the code:
+   jpeg2000.Encoder has no upper bound on Width/Height (C17_j2k_beyond_uint32_refuted).
    Not in the model: what the encoders do AFTER the guards (the harness checks "never panics,
    returned stream decodes to the requested geometry" on the implementation), ROI / MCT
-   parameter validation of jpeg2000.EncodeParams. After /repo is repaired the models get the
-   new guards and the `_refuted` theorems are replaced by the unconditional ones. *)
+   parameter validation of jpeg2000.EncodeParams, the RLE 4 GiB offset-overflow error. *)
 From V Require Import Common.Base Framing.FrmValidate Framing.FrmProofsValidate.
 
-(* ---------- package-level encoders: refuted, with the exact missing guards ---------- *)
+(* ---------- package-level encoders ---------- *)
 
-Theorem C17_baseline_refuted :
-  exists a, 0 <= a_len a /\ baseline_accepts a = true /\ baseline_representable a = false.
-Proof. exact baseline_accepts_refuted. Qed.
-Print Assumptions C17_baseline_refuted.
-
-Theorem C17_baseline_partial : forall a,
-  a_w a <= 65535 -> a_h a <= 65535 ->
+Theorem C17_baseline : forall a,
   baseline_accepts a = true -> baseline_representable a = true.
-Proof. exact baseline_accepts_partial. Qed.
-Print Assumptions C17_baseline_partial.
-Example C17_baseline_partial_nonvacuous :
-  let a := {| a_len := 196605; a_w := 65535; a_h := 1; a_c := 3; a_p := 8; a_x := 100 |} in
-  a_w a <= 65535 /\ a_h a <= 65535 /\ baseline_accepts a = true.
-Proof. vm_compute. repeat split; discriminate. Qed.
+Proof. exact baseline_accepts_sound. Qed.
+Print Assumptions C17_baseline.
 
-Theorem C17_extended_refuted :
-  (exists a, 0 <= a_len a /\ a_p a = 8 /\ extended_accepts a = true /\ extended_representable a = false) /\
-  (exists a, 0 <= a_len a /\ a_p a = 12 /\ extended_accepts a = true /\ extended_representable a = false).
-Proof. exact extended_accepts_refuted. Qed.
-Print Assumptions C17_extended_refuted.
-
-Theorem C17_extended_partial : forall a,
-  a_w a <= 65535 -> a_h a <= 65535 ->
+Theorem C17_extended : forall a,
   extended_accepts a = true -> extended_representable a = true.
-Proof. exact extended_accepts_partial. Qed.
-Print Assumptions C17_extended_partial.
-Example C17_extended_partial_nonvacuous :
-  let a := {| a_len := 131070; a_w := 1; a_h := 65535; a_c := 1; a_p := 12; a_x := 1 |} in
-  a_w a <= 65535 /\ a_h a <= 65535 /\ extended_accepts a = true.
-Proof. vm_compute. repeat split; discriminate. Qed.
+Proof. exact extended_accepts_sound. Qed.
+Print Assumptions C17_extended.
 
-Theorem C17_lossless_refuted :
-  exists a, 0 <= a_len a /\ lossless_accepts a = true /\ lossless_representable a = false.
-Proof. exact lossless_accepts_refuted. Qed.
-Print Assumptions C17_lossless_refuted.
-
-Theorem C17_lossless_partial : forall a,
-  a_w a <= 65535 -> a_h a <= 65535 ->
+Theorem C17_lossless : forall a,
   lossless_accepts a = true -> lossless_representable a = true.
-Proof. exact lossless_accepts_partial. Qed.
-Print Assumptions C17_lossless_partial.
-Example C17_lossless_partial_nonvacuous :
-  let a := {| a_len := 12; a_w := 2; a_h := 1; a_c := 3; a_p := 16; a_x := 7 |} in
-  a_w a <= 65535 /\ a_h a <= 65535 /\ lossless_accepts a = true.
-Proof. vm_compute. repeat split; discriminate. Qed.
+Proof. exact lossless_accepts_sound. Qed.
+Print Assumptions C17_lossless.
 
-Theorem C17_sv1_refuted :
-  exists a, 0 <= a_len a /\ sv1_accepts a = true /\ sv1_representable a = false.
-Proof. exact sv1_accepts_refuted. Qed.
-Print Assumptions C17_sv1_refuted.
-
-Theorem C17_sv1_partial : forall a,
-  a_w a <= 65535 -> a_h a <= 65535 ->
+Theorem C17_sv1 : forall a,
   sv1_accepts a = true -> sv1_representable a = true.
-Proof. exact sv1_accepts_partial. Qed.
-Print Assumptions C17_sv1_partial.
-Example C17_sv1_partial_nonvacuous :
-  let a := {| a_len := 65535; a_w := 65535; a_h := 1; a_c := 1; a_p := 2; a_x := 0 |} in
-  a_w a <= 65535 /\ a_h a <= 65535 /\ sv1_accepts a = true.
-Proof. vm_compute. repeat split; discriminate. Qed.
+Proof. exact sv1_accepts_sound. Qed.
+Print Assumptions C17_sv1.
 
-Theorem C17_jpegls_refuted :
-  (exists a, 0 <= a_len a /\ jls_accepts a = true /\ dims16_ok a = true /\ jls_representable a = false) /\
-  (exists a, 0 <= a_len a /\ jls_accepts a = true /\ need_bytes a 1 <= a_len a /\ jls_representable a = false).
-Proof. exact jls_accepts_refuted. Qed.
-Print Assumptions C17_jpegls_refuted.
-
-Theorem C17_jpegls_partial : forall a,
-  a_w a <= 65535 -> a_h a <= 65535 ->
-  need_bytes a (bytes_per_sample (a_p a)) <= a_len a ->
+Theorem C17_jpegls : forall a,
   jls_accepts a = true -> jls_representable a = true.
-Proof. exact jls_accepts_partial. Qed.
-Print Assumptions C17_jpegls_partial.
-Example C17_jpegls_partial_nonvacuous :
-  let a := {| a_len := 18; a_w := 3; a_h := 1; a_c := 3; a_p := 9; a_x := 0 |} in
-  a_w a <= 65535 /\ a_h a <= 65535 /\ need_bytes a (bytes_per_sample (a_p a)) <= a_len a /\ jls_accepts a = true.
-Proof. vm_compute. repeat split; discriminate. Qed.
+Proof. exact jls_accepts_sound. Qed.
+Print Assumptions C17_jpegls.
 
+Example C17_package_nonvacuous :
+  baseline_accepts {| a_len := 196605; a_w := 65535; a_h := 1; a_c := 3; a_p := 8; a_x := 100 |} = true /\
+  baseline_accepts {| a_len := 196608; a_w := 65536; a_h := 1; a_c := 3; a_p := 8; a_x := 100 |} = false /\
+  extended_accepts {| a_len := 131070; a_w := 1; a_h := 65535; a_c := 1; a_p := 12; a_x := 1 |} = true /\
+  extended_accepts {| a_len := 131074; a_w := 1; a_h := 65537; a_c := 1; a_p := 12; a_x := 1 |} = false /\
+  lossless_accepts {| a_len := 12; a_w := 2; a_h := 1; a_c := 3; a_p := 16; a_x := 7 |} = true /\
+  sv1_accepts {| a_len := 65535; a_w := 65535; a_h := 1; a_c := 1; a_p := 2; a_x := 0 |} = true /\
+  jls_accepts {| a_len := 18; a_w := 3; a_h := 1; a_c := 3; a_p := 9; a_x := 0 |} = true /\
+  jls_accepts {| a_len := 17; a_w := 3; a_h := 1; a_c := 3; a_p := 9; a_x := 0 |} = false /\
+  jls_accepts {| a_len := 65536; a_w := 65536; a_h := 1; a_c := 1; a_p := 8; a_x := 0 |} = false.
+Proof. vm_compute. repeat split; reflexivity. Qed.
+
+(* KNOWN FINDING FR-3: the only guard still missing is NEAR <= min(255, MAXVAL/2) *)
 Theorem C17_jpegls_near_refuted :
-  (exists a, 0 <= a_len a /\ jlsnear_accepts a = true /\ jlsnear_representable a = false /\
-             dims16_ok a = true /\ a_x a <= near_max (a_p a)) /\
-  (exists a, 0 <= a_len a /\ jlsnear_accepts a = true /\ jlsnear_representable a = false /\
-             need_bytes a 1 <= a_len a /\ a_x a <= near_max (a_p a)) /\
-  (exists a, 0 <= a_len a /\ jlsnear_accepts a = true /\ jlsnear_representable a = false /\
-             dims16_ok a = true /\ need_bytes a 1 <= a_len a).
+  exists a, jlsnear_accepts a = true /\ jlsnear_representable a = false /\
+            jls_representable a = true /\ near_max (a_p a) < a_x a <= 255.
 Proof. exact jlsnear_accepts_refuted. Qed.
 Print Assumptions C17_jpegls_near_refuted.
 
 Theorem C17_jpegls_near_partial : forall a,
-  a_w a <= 65535 -> a_h a <= 65535 ->
-  need_bytes a (bytes_per_sample (a_p a)) <= a_len a ->
   a_x a <= near_max (a_p a) ->
   jlsnear_accepts a = true -> jlsnear_representable a = true.
 Proof. exact jlsnear_accepts_partial. Qed.
 Print Assumptions C17_jpegls_near_partial.
 Example C17_jpegls_near_partial_nonvacuous :
   let a := {| a_len := 6; a_w := 3; a_h := 2; a_c := 1; a_p := 8; a_x := 127 |} in
-  a_w a <= 65535 /\ a_h a <= 65535 /\ need_bytes a (bytes_per_sample (a_p a)) <= a_len a /\
   a_x a <= near_max (a_p a) /\ jlsnear_accepts a = true.
 Proof. vm_compute. repeat split; discriminate. Qed.
 
-Theorem C17_j2k_refuted :
-  (exists k, j2k_accepts k = true /\ j2k_representable k = false /\ k_cbw k = 1024 /\ k_cbh k = 1024) /\
-  (exists k, j2k_accepts k = true /\ j2k_representable k = false /\ k_prog k = 5) /\
-  (exists k, j2k_accepts k = true /\ j2k_representable k = false /\ k_layers k = 65536) /\
-  (exists k, j2k_accepts k = true /\ j2k_representable k = false /\ k_lossless k = false /\ k_quality k = 0) /\
-  (exists k, j2k_accepts k = true /\ j2k_representable k = false /\ k_tw k = -1) /\
-  (exists k, j2k_accepts k = true /\ j2k_representable k = false /\ k_tw k = 1 /\ k_th k = 1).
-Proof. exact j2k_accepts_refuted. Qed.
-Print Assumptions C17_j2k_refuted.
-
-Theorem C17_j2k_partial : forall k,
-  k_w k < 4294967296 -> k_h k < 4294967296 -> k_w k * k_h k < 2 ^ 59 ->
-  k_cbw k * k_cbh k <= 4096 -> k_layers k <= 65535 -> 0 <= k_prog k <= 4 ->
-  0 <= k_tw k < 4294967296 -> 0 <= k_th k < 4294967296 ->
-  tiles_along (k_w k) (k_tw k) * tiles_along (k_h k) (k_th k) <= 65535 ->
-  (k_lossless k = true \/ 1 <= k_quality k <= 100) ->
+(* jpeg2000.Encoder: validateParams + convertPixelData *)
+Theorem C17_j2k : forall k,
+  k_w k < 4294967296 -> k_h k < 4294967296 -> k_tw k < 4294967296 -> k_th k < 4294967296 ->
+  k_w k * k_h k < 2 ^ 59 -> 0 <= k_ncq k -> 0 <= k_prog k ->
   j2k_accepts k = true -> j2k_representable k = true.
-Proof. exact j2k_accepts_partial. Qed.
-Print Assumptions C17_j2k_partial.
-Example C17_j2k_partial_nonvacuous :
+Proof. exact j2k_accepts_sound. Qed.
+Print Assumptions C17_j2k.
+Example C17_j2k_nonvacuous :
   let k := {| k_len := 786432; k_w := 512; k_h := 512; k_c := 3; k_p := 8; k_levels := 6; k_cbw := 64;
               k_cbh := 64; k_layers := 5; k_prog := 4; k_tw := 64; k_th := 64; k_quality := 100;
-              k_lossless := false |} in
-  j2k_accepts k = true /\ tiles_along (k_w k) (k_tw k) * tiles_along (k_h k) (k_th k) = 64.
-Proof. vm_compute. split; reflexivity. Qed.
+              k_lossless := false; k_ncq := 0 |} in
+  j2k_accepts k = true /\ tiles_along (k_w k) (k_tw k) * tiles_along (k_h k) (k_th k) = 64 /\
+  j2k_accepts {| k_len := 20; k_w := 5; k_h := 4; k_c := 1; k_p := 8; k_levels := 2; k_cbw := 64; k_cbh := 128;
+                 k_layers := 1; k_prog := 0; k_tw := 0; k_th := 0; k_quality := 80; k_lossless := true;
+                 k_ncq := 0 |} = false /\
+  j2k_accepts {| k_len := 20; k_w := 5; k_h := 4; k_c := 1; k_p := 8; k_levels := 2; k_cbw := 64; k_cbh := 64;
+                 k_layers := 1; k_prog := 5; k_tw := 0; k_th := 0; k_quality := 80; k_lossless := true;
+                 k_ncq := 0 |} = false /\
+  j2k_accepts {| k_len := 65792; k_w := 257; k_h := 256; k_c := 1; k_p := 8; k_levels := 0; k_cbw := 64;
+                 k_cbh := 64; k_layers := 1; k_prog := 0; k_tw := 1; k_th := 1; k_quality := 80;
+                 k_lossless := true; k_ncq := 0 |} = false.
+Proof. vm_compute. repeat split; reflexivity. Qed.
 
-Theorem C17_rle_refuted :
-  exists r, 0 <= r_len r /\ rle_accepts r = true /\ rle_representable r = false /\ r_h r = 0.
-Proof. exact rle_accepts_refuted. Qed.
-Print Assumptions C17_rle_refuted.
+(* outside the property's quantifier: no upper bound on Width/Height, the int64 count wraps *)
+Theorem C17_j2k_beyond_uint32_refuted :
+  exists k, 0 <= k_len k /\ j2k_accepts k = true /\ j2k_representable k = false /\ k_w k = 2 ^ 32.
+Proof. exact j2k_accepts_beyond_uint32_refuted. Qed.
+Print Assumptions C17_j2k_beyond_uint32_refuted.
 
-Theorem C17_rle_panics :
-  rle_outcome {| r_len := 360; r_w := 5; r_h := 3; r_ba := 64; r_spp := 3; r_planar := 0 |} = Panic /\
-  rle_outcome {| r_len := 122880; r_w := 5; r_h := 3; r_ba := 0; r_spp := 1; r_planar := 0 |} = Panic.
-Proof. exact rle_panics. Qed.
-Print Assumptions C17_rle_panics.
+(* rle.Codec.encodeFrame *)
+Theorem C17_rle : forall r,
+  0 <= r_w r <= 65535 -> 0 <= r_h r <= 65535 -> 0 <= r_ba r <= 65535 -> 0 <= r_spp r <= 65535 ->
+  rle_accepts r = true -> rle_representable r = true.
+Proof. exact rle_accepts_sound. Qed.
+Print Assumptions C17_rle.
 
-(* bounded result (the whole box is enumerated): 1..2 x 1..2 pixels, BitsAllocated 1..40,
-   1..4 samples, both planar configurations, buffer lengths 0..81 *)
-Theorem C17_rle_bounded : rle_box_ok = true.
-Proof. exact rle_accepts_bounded. Qed.
-Print Assumptions C17_rle_bounded.
+Theorem C17_rle_never_panics : forall r, rle_outcome r <> Panic.
+Proof. exact rle_never_panics. Qed.
+Print Assumptions C17_rle_never_panics.
+Example C17_rle_nonvacuous :
+  rle_accepts {| r_len := 90; r_w := 5; r_h := 3; r_ba := 16; r_spp := 3; r_planar := 1 |} = true /\
+  rle_outcome {| r_len := 360; r_w := 5; r_h := 3; r_ba := 64; r_spp := 3; r_planar := 0 |} = Err /\
+  rle_outcome {| r_len := 1; r_w := 1; r_h := 0; r_ba := 16; r_spp := 1; r_planar := 0 |} = Err.
+Proof. vm_compute. repeat split; reflexivity. Qed.
 
 (* ---------- registry codecs ---------- *)
 
-Theorem C17_codec_baseline : forall c, uint16_fields c ->
+Theorem C17_codec_baseline : forall c,
   codec_baseline_accepts c = true ->
   baseline_representable (eargs_of c 8 (norm_param 1 100 90 90 false c)) = true.
 Proof. exact codec_baseline_sound. Qed.
 Print Assumptions C17_codec_baseline.
 
-Theorem C17_codec_extended : forall c, uint16_fields c ->
+Theorem C17_codec_extended : forall c,
   codec_extended_accepts c = true ->
   extended_representable (eargs_of c (if (0 <? c_bs c) && (c_bs c <=? 8) then 8 else 12)
                                      (norm_param 1 100 90 90 false c)) = true.
 Proof. exact codec_extended_sound. Qed.
 Print Assumptions C17_codec_extended.
 
-Theorem C17_codec_lossless57 : forall c, uint16_fields c ->
+Theorem C17_codec_bits_consistent : forall c,
+  (codec_baseline_accepts c = true \/ codec_extended_accepts c = true \/ codec_htj2k_accepts c = true) ->
+  c_bs c <> 0 /\ c_bs c <= c_ba c.
+Proof. exact codec_bits_consistent. Qed.
+Print Assumptions C17_codec_bits_consistent.
+
+Theorem C17_codec_lossless57 : forall c,
   codec_lossless57_accepts c = true -> lossless_representable (eargs_of c (c_bs c) 1) = true.
 Proof. exact codec_lossless57_sound. Qed.
 Print Assumptions C17_codec_lossless57.
 
-Theorem C17_codec_sv1 : forall c, uint16_fields c ->
+Theorem C17_codec_sv1 : forall c,
   codec_sv1_accepts c = true -> sv1_representable (eargs_of c (c_bs c) 0) = true.
 Proof. exact codec_sv1_sound. Qed.
 Print Assumptions C17_codec_sv1.
+
+Theorem C17_codec_jpegls : forall c,
+  codec_jls_accepts c = true -> jls_representable (eargs_of c (c_bs c) 0) = true.
+Proof. exact codec_jls_sound. Qed.
+Print Assumptions C17_codec_jpegls.
 
 Theorem C17_codec_j2k : forall c, uint16_fields c ->
   codec_j2k_accepts c = true -> j2k_representable (j2k_of_codec c (c_bs c) 0) = true.
@@ -201,41 +173,55 @@ Theorem C17_codec_htj2k : forall c, uint16_fields c ->
 Proof. exact codec_htj2k_sound. Qed.
 Print Assumptions C17_codec_htj2k.
 
+Theorem C17_codec_rle : forall c, uint16_fields c ->
+  codec_rle_outcome c <> Panic /\
+  (codec_rle_outcome c = Ok tt -> 0 < c_nframes c ->
+   rle_representable {| r_len := c_flen c; r_w := c_w c; r_h := c_h c; r_ba := c_ba c;
+                        r_spp := c_spp c; r_planar := c_planar c |} = true).
+Proof. exact codec_rle_sound. Qed.
+Print Assumptions C17_codec_rle.
+
 Example C17_codec_nonvacuous :
   let c := {| c_nil_old := false; c_nil_new := false; c_nil_fi := false; c_w := 65535; c_h := 2; c_spp := 3;
               c_bs := 8; c_ba := 8; c_planar := 0; c_nframes := 2; c_flen := 393210; c_pkind := 1;
               c_param := 101; c_param_int := false |} in
   uint16_fields c /\ codec_baseline_accepts c = true /\ codec_extended_accepts c = true /\
-  codec_lossless57_accepts c = true /\ codec_sv1_accepts c = true /\ codec_j2k_accepts c = true /\
-  codec_htj2k_accepts c = true /\ norm_param 1 100 90 90 false c = 90.
+  codec_lossless57_accepts c = true /\ codec_sv1_accepts c = true /\ codec_jls_accepts c = true /\
+  codec_j2k_accepts c = true /\ codec_htj2k_accepts c = true /\ codec_rle_outcome c = Ok tt.
 Proof. unfold uint16_fields. vm_compute. repeat split; discriminate. Qed.
 
-Theorem C17_codec_jpegls_refuted :
-  exists c, uint16_fields c /\ codec_jls_accepts c = true /\
-            jls_representable (eargs_of c (c_bs c) 0) = false.
-Proof. exact codec_jls_refuted. Qed.
-Print Assumptions C17_codec_jpegls_refuted.
-
+(* KNOWN FINDING FR-3 at the registry: default NEAR = 3 with BitsStored = 2 *)
 Theorem C17_codec_jpegls_near_refuted :
-  (exists c, uint16_fields c /\ codec_jlsnear_accepts c = true /\
-             jlsnear_representable (eargs_of c (c_bs c) (norm_param 0 255 3 3 false c)) = false /\ c_bs c = 12) /\
-  (exists c, uint16_fields c /\ codec_jlsnear_accepts c = true /\
-             jlsnear_representable (eargs_of c (c_bs c) (norm_param 0 255 3 3 false c)) = false /\ c_bs c = 2).
+  exists c, uint16_fields c /\ codec_jlsnear_accepts c = true /\
+            jlsnear_representable (eargs_of c (c_bs c) (norm_param 0 255 3 3 false c)) = false /\
+            jls_representable (eargs_of c (c_bs c) 0) = true /\ c_bs c = 2.
 Proof. exact codec_jlsnear_refuted. Qed.
 Print Assumptions C17_codec_jpegls_near_refuted.
 
-Theorem C17_codec_rle_refuted :
-  codec_rle_outcome {| c_nil_old := false; c_nil_new := false; c_nil_fi := false; c_w := 1; c_h := 0;
-                       c_spp := 1; c_bs := 16; c_ba := 16; c_planar := 1; c_nframes := 1; c_flen := 1;
-                       c_pkind := 0; c_param := 0; c_param_int := false |} = Ok tt /\
-  codec_rle_outcome {| c_nil_old := false; c_nil_new := false; c_nil_fi := false; c_w := 5; c_h := 3;
-                       c_spp := 3; c_bs := 1; c_ba := 64; c_planar := 0; c_nframes := 1; c_flen := 360;
-                       c_pkind := 0; c_param := 0; c_param_int := false |} = Panic.
-Proof. exact codec_rle_refuted. Qed.
-Print Assumptions C17_codec_rle_refuted.
+Theorem C17_codec_jpegls_near_partial : forall c,
+  norm_param 0 255 3 3 false c <= near_max (c_bs c) ->
+  codec_jlsnear_accepts c = true ->
+  jlsnear_representable (eargs_of c (c_bs c) (norm_param 0 255 3 3 false c)) = true.
+Proof. exact codec_jlsnear_partial. Qed.
+Print Assumptions C17_codec_jpegls_near_partial.
+Example C17_codec_jpegls_near_partial_nonvacuous :
+  let c := {| c_nil_old := false; c_nil_new := false; c_nil_fi := false; c_w := 5; c_h := 3; c_spp := 1;
+              c_bs := 12; c_ba := 16; c_planar := 0; c_nframes := 1; c_flen := 30; c_pkind := 1;
+              c_param := 255; c_param_int := false |} in
+  norm_param 0 255 3 3 false c <= near_max (c_bs c) /\ codec_jlsnear_accepts c = true.
+Proof. vm_compute. split; [discriminate | reflexivity]. Qed.
 
-(* Validate() never rejects: the value used afterwards is always inside the documented range *)
+(* KNOWN FINDING FR-7: Validate() never rejects; the value used afterwards is always inside
+   the documented range, e.g. quality 101 is encoded as quality 90 without an error *)
 Theorem C17_validate_normalises : forall lo hi d cd any c,
   lo <= d <= hi -> in_range lo hi (norm_param lo hi d cd any c) = true.
 Proof. exact norm_param_in_range. Qed.
 Print Assumptions C17_validate_normalises.
+
+Theorem C17_validate_normalises_witness :
+  let c := {| c_nil_old := false; c_nil_new := false; c_nil_fi := false; c_w := 5; c_h := 3; c_spp := 1;
+              c_bs := 8; c_ba := 8; c_planar := 0; c_nframes := 1; c_flen := 15; c_pkind := 1;
+              c_param := 101; c_param_int := false |} in
+  codec_baseline_accepts c = true /\ c_param c = 101 /\ norm_param 1 100 90 90 false c = 90.
+Proof. exact validate_normalises_witness. Qed.
+Print Assumptions C17_validate_normalises_witness.
